@@ -847,8 +847,8 @@ def run(rep, tier, seed):
         "construction are explored only",
         "panic keys are <file>::<enclosing fn>:<message> of the panic location printed by the real rcomp binary "
         "(message keys when rcomp cannot reproduce); file:line is recorded per witness"]
-    os.makedirs(os.path.join(VERIF, "evidence"), exist_ok=True)
-    with open(os.path.join(VERIF, "evidence", "C16-findings.json"), "w") as f:
+    os.makedirs(os.path.join(VERIF, "work"), exist_ok=True)
+    with open(os.path.join(VERIF, "work", "C16-findings.json"), "w") as f:
         json.dump(findings, f, indent=1)
 
 
